@@ -102,7 +102,8 @@ let () = read_lines (fun line ->
       (match run_program (nat_of_int (int_of_string fuel)) edb ss with
        | Ok (Some (d, rounds)) ->
          let buf = Buffer.create 1024 in
-         Buffer.add_string buf "ok (rounds";
+         (* static hypotheses of theorem C01_run_program_correct, evaluated on this very input *)
+         Buffer.add_string buf (if program_ok ss && program_det ss then "ok (rounds" else "ok (rounds-nohyp");
          List.iter (fun n -> Buffer.add_string buf (" " ^ string_of_int (int_of_nat n))) rounds;
          Buffer.add_string buf ")";
          List.iter (fun o ->
